@@ -3441,7 +3441,7 @@ let parse_equation_terms equation =
                else Ret (app lhs rhs)
         | Raise e -> Raise e)
      | Raise e -> Raise e)
-  | None -> Raise ValueError
+  | None -> Raise ParserError
 
 (** val template_of : item list -> char list **)
 
@@ -4204,6 +4204,52 @@ let rec fold_ints e = match e with
 | ECall2 (g, a, b) -> ECall2 (g, (fold_ints a), (fold_ints b))
 | _ -> e
 
+(** val isnp : sexpr -> bool **)
+
+let rec isnp = function
+| ENum _ -> false
+| ENeg a -> isnp a
+| EAbs a -> isnp a
+| EBin (_, a, b) -> (||) (isnp a) (isnp b)
+| EMax (a, b) -> (&&) (isnp a) (isnp b)
+| EMin (a, b) -> (&&) (isnp a) (isnp b)
+| EIf (_, _, _, a, b) -> (&&) (isnp a) (isnp b)
+| _ -> true
+
+(** val has_nonzero_digit : char list -> bool **)
+
+let rec has_nonzero_digit = function
+| [] -> false
+| c::r -> (||) ((&&) (is_digit c) (negb ((=) c '0'))) (has_nonzero_digit r)
+
+(** val nonzero_lit : sexpr -> bool **)
+
+let nonzero_lit = function
+| ENum s -> has_nonzero_digit s
+| ENeg a -> (match a with
+             | ENum s -> has_nonzero_digit s
+             | _ -> false)
+| _ -> false
+
+(** val py_ok : sexpr -> bool **)
+
+let rec py_ok = function
+| ENeg a -> py_ok a
+| EAbs a -> py_ok a
+| EBin (o, a, b) ->
+  (&&) ((&&) (py_ok a) (py_ok b))
+    (match o with
+     | ODiv -> (||) ((||) (isnp a) (isnp b)) (nonzero_lit b)
+     | OPow -> (||) (isnp a) (isnp b)
+     | _ -> true)
+| EMax (a, b) -> (&&) (py_ok a) (py_ok b)
+| EMin (a, b) -> (&&) (py_ok a) (py_ok b)
+| EIf (_, l, r, a, b) ->
+  (&&) ((&&) ((&&) (py_ok l) (py_ok r)) (py_ok a)) (py_ok b)
+| ECall1 (_, a) -> py_ok a
+| ECall2 (_, a, b) -> (&&) (py_ok a) (py_ok b)
+| _ -> true
+
 (** val p_expr :
     (char list -> nat option) -> nat -> ctok list -> (sexpr * ctok list)
     option **)
@@ -4620,7 +4666,9 @@ let stmt_of_tokens row ts =
   | Some p ->
     let (p0, st) = p in
     let (p1, k0) = p0 in
-    let (y, i) = p1 in Some (y, (SAssign (i, k0, (fold_ints (denote st)))))
+    let (y, i) = p1 in
+    let e = fold_ints (denote st) in
+    if py_ok e then Some (y, (SAssign (i, k0, e))) else None
   | None -> None
 
 (** val stmt_of_equation :
